@@ -1,8 +1,9 @@
 import KV.Proofs.EvmTable
-/-! Invariants of `step` (inversion lemma, stack effect, gas decrease, frame conditions). -/
+/-! Invariants of `step` (inversion lemma, stack effect, gas decrease, frame conditions), for an
+arbitrary nested-call wrapper `sub`. -/
 namespace KV.Evm
 
-attribute [local irreducible] memWrite memRead getData word32 beVal beFixed wexp validJumpdest sload sstore envValue rightPad
+attribute [local irreducible] memWrite memRead getData word32 beVal beFixed wexp validJumpdest sload sstore envValue rightPad memSet
 
 /-- the state in which `exec` runs: gas charged, memory grown -/
 def preExec (env : Env) (s : State) (info : OpInfo) (msz dynCost last : Nat) : State :=
@@ -10,28 +11,31 @@ def preExec (env : Env) (s : State) (info : OpInfo) (msz dynCost last : Nat) : S
            mem := growMem s.mem (toWordSize msz * 32), memCost := last }
 
 /-- everything that is known when `step` continues -/
-structure StepNext (env : Env) (s s' : State) where
+structure StepNext (sub : Sub) (env : Env) (s s' : State) where
   info : OpInfo
   msz : Nat
   dynCost : Nat
   last : Nat
   results : List Word
-  pc : Nat
   mem' : Bytes
+  gasBack : Nat
   hinfo : opInfo env.post (getOp env.code s.pc) = some info
   hsup : info.kind.isUnsupported = false
   hmin : info.minStack ≤ s.stack.length
   hmax : s.stack.length ≤ info.maxStack
-  hro : (env.readOnly && info.writes) = false
+  hro : (env.readOnly && (info.writes || callWithValue info.kind (s.stack.take info.pops))) = false
   hgas : info.gas ≤ s.gas
-  hdyn : dynGasOf info (s.stack.take info.pops) s (toWordSize msz * 32) = some (dynCost, last)
+  hdyn : dynGasOf info (s.stack.take info.pops) s env.address (s.gas - info.gas) (toWordSize msz * 32) = some (dynCost, last)
   hcharge : chargeOf info env.post dynCost ≤ s.gas - info.gas
-  hexec : exec env (preExec env s info msz dynCost last) info.kind (s.stack.take info.pops)
-      (preExec env s info msz dynCost last).mem = .cont results pc mem' s'.storage s'.logs
+  hexec : exec sub env (preExec env s info msz dynCost last) info.kind (s.stack.take info.pops)
+      (preExec env s info msz dynCost last).mem
+      (cgtOf info.kind (s.stack.take info.pops) s (s.gas - info.gas) (toWordSize msz * 32))
+        = .cont results s'.pc mem' s'.world gasBack
   hstack : s'.stack = results ++ s.stack.drop info.pops
-  hgas' : s'.gas = s.gas - info.gas - chargeOf info env.post dynCost
+  hgas' : s'.gas = s.gas - info.gas - chargeOf info env.post dynCost + gasBack
 
-theorem step_next_inv {env : Env} {s s' : State} (h : step env s = .next s') : Nonempty (StepNext env s s') := by
+theorem step_next_inv {sub : Sub} {env : Env} {s s' : State} (h : step sub env s = .next s') :
+    Nonempty (StepNext sub env s s') := by
   unfold step at h
   split at h
   · simp [haltWith] at h
@@ -51,17 +55,36 @@ theorem step_next_inv {env : Env} {s s' : State} (h : step env s = .next s') : N
     split at h; · simp at h
     rename_i hcharge
     split at h; · simp at h
-    rename_i results pc mem' st' lg' hexec
+    rename_i results pc mem' w' gb hexec
     simp at h
     subst h
-    exact ⟨{ info := info, msz := msz, dynCost := dynCost, last := last, results := results, pc := pc, mem' := mem',
-             hinfo := hinfo,
+    exact ⟨{ info := info, msz := msz, dynCost := dynCost, last := last, results := results, mem' := mem',
+             gasBack := gb, hinfo := hinfo,
              hsup := by simpa using hsup, hmin := by omega, hmax := by omega, hro := by simpa using hro,
              hgas := by omega, hdyn := hdyn, hcharge := by omega, hexec := hexec, hstack := rfl, hgas' := rfl }⟩
 
-/-- a halting step leaves storage and logs alone and does not create gas -/
-theorem step_halt_inv {env : Env} {s : State} {h : Halt} (hs : step env s = .halt h) :
-    h.final.gas ≤ s.gas ∧ h.final.storage = s.storage ∧ h.final.logs = s.logs ∧ h.final.stack = s.stack := by
+theorem afterCall_stop_status {s : State} {mem : Bytes} {a b : Word} {out : CallOut} {st : Status} {ret : Bytes}
+    (h : afterCall s mem a b out = .stop st ret) : st = .unsupported := by
+  unfold afterCall at h
+  split at h <;> first | (injection h with h1 h2; exact h1.symm) | cases h
+
+theorem exec_stop_status {sub : Sub} {env : Env} {s : State} {k : OpKind} {args : List Word} {mem : Bytes} {cgt : Nat}
+    {st : Status} {ret : Bytes} (h : exec sub env s k args mem cgt = .stop st ret) : st ≠ .err .fuel := by
+  cases k <;> simp only [exec] at h
+  case jump => split at h <;> (try (injection h with h1; subst h1; simp)); cases h
+  case jumpi =>
+    split at h
+    · split at h <;> (try (injection h with h1; subst h1; simp)); cases h
+    · cases h
+  case call => rw [afterCall_stop_status h]; simp
+  case staticcall => rw [afterCall_stop_status h]; simp
+  all_goals first
+    | (injection h with h1; subst h1; simp)
+    | cases h
+
+/-- a halting step leaves the world alone and does not create gas -/
+theorem step_halt_inv {sub : Sub} {env : Env} {s : State} {h : Halt} (hs : step sub env s = .halt h) :
+    h.final.gas ≤ s.gas ∧ h.final.world = s.world ∧ h.final.stack = s.stack ∧ h.status ≠ .err .fuel := by
   unfold step at hs
   simp only [haltWith] at hs
   split at hs
@@ -76,13 +99,26 @@ theorem step_halt_inv {env : Env} {s : State} {h : Halt} (hs : step env s = .hal
     split at hs; · simp at hs; subst hs; simp
     split at hs; · simp at hs; subst hs; simp
     split at hs
-    · simp at hs; subst hs; simp; omega
+    · rename_i hex; simp at hs; subst hs
+      refine ⟨by simp; omega, by simp, by simp, exec_stop_status hex⟩
     · simp at hs
 
-theorem exec_results_length {env : Env} {s : State} {k : OpKind} {args : List Word} {mem : Bytes}
-    {results : List Word} {pc : Nat} {mem' : Bytes} {st : Storage} {lg : List Log}
+theorem step_halt_status {sub : Sub} {env : Env} {s : State} {h : Halt} (hs : step sub env s = .halt h) :
+    h.status ≠ .err .fuel := (step_halt_inv hs).2.2.2
+
+theorem afterCall_cont {s : State} {mem : Bytes} {a b : Word} {out : CallOut}
+    {results : List Word} {pc : Nat} {mem' : Bytes} {w : World} {gb : Nat}
+    (h : afterCall s mem a b out = .cont results pc mem' w gb) :
+    results.length = 1 ∧ pc = s.pc + 1 ∧ w = out.world ∧ gb = out.gasLeft := by
+  unfold afterCall at h
+  split at h
+  · cases h
+  all_goals (injection h with h1 h2 h3 h4 h5; subst h1; subst h2; subst h4; subst h5; exact ⟨rfl, rfl, rfl, rfl⟩)
+
+theorem exec_results_length {sub : Sub} {env : Env} {s : State} {k : OpKind} {args : List Word} {mem : Bytes} {cgt : Nat}
+    {results : List Word} {pc : Nat} {mem' : Bytes} {w : World} {gb : Nat}
     (hwf : k.wf = true) (hargs : args.length = k.pops)
-    (h : exec env s k args mem = .cont results pc mem' st lg) : results.length = k.pushes := by
+    (h : exec sub env s k args mem cgt = .cont results pc mem' w gb) : results.length = k.pushes := by
   cases k <;> simp only [exec, OpKind.pushes, OpKind.pops, OpKind.wf] at *
   case jump => split at h <;> (try (injection h with h1; subst h1; simp only [List.length_cons, List.length_nil, Nat.zero_add])) ; cases h
   case jumpi =>
@@ -94,15 +130,18 @@ theorem exec_results_length {env : Env} {s : State} {k : OpKind} {args : List Wo
     injection h with h1; subst h1
     simp only [List.length_cons, List.length_append, List.length_take, List.length_drop, List.length_nil]
     simp at hwf; omega
+  case call => exact (afterCall_cont h).1
+  case staticcall => exact (afterCall_cont h).1
   all_goals first
     | (injection h with h1; subst h1; simp only [List.length_cons, List.length_nil, Nat.zero_add])
     | cases h
 
-theorem exec_frame {env : Env} {s : State} {k : OpKind} {args : List Word} {mem : Bytes}
-    {results : List Word} {pc : Nat} {mem' : Bytes} {st : Storage} {lg : List Log}
-    (hk : k.modifies = false)
-    (h : exec env s k args mem = .cont results pc mem' st lg) : st = s.storage ∧ lg = s.logs := by
-  cases k <;> simp only [exec, OpKind.modifies] at * <;>
+/-- kinds other than SSTORE / LOGn / CALL / STATICCALL leave the world alone and hand back no gas -/
+theorem exec_frame {sub : Sub} {env : Env} {s : State} {k : OpKind} {args : List Word} {mem : Bytes} {cgt : Nat}
+    {results : List Word} {pc : Nat} {mem' : Bytes} {w : World} {gb : Nat}
+    (hk : k.modifies = false) (hc : k.isCall = false)
+    (h : exec sub env s k args mem cgt = .cont results pc mem' w gb) : w = s.world ∧ gb = 0 := by
+  cases k <;> simp only [exec, OpKind.modifies, OpKind.isCall] at * <;>
     (try (injection h with h1 h2 h3 h4 h5; subst h4; subst h5; simp))
   case jump => split at h <;> (try (injection h with h1 h2 h3 h4 h5; subst h4; subst h5; simp)); simp at h
   case jumpi =>
@@ -111,45 +150,49 @@ theorem exec_frame {env : Env} {s : State} {k : OpKind} {args : List Word} {mem 
     · injection h with h1 h2 h3 h4 h5; subst h4; subst h5; simp
   all_goals simp at *
 
-theorem exec_stops {env : Env} {s : State} {k : OpKind} {args : List Word} {mem : Bytes}
-    {results : List Word} {pc : Nat} {mem' : Bytes} {st : Storage} {lg : List Log}
-    (hk : k.stops = true) : exec env s k args mem ≠ .cont results pc mem' st lg := by
+/-- SSTORE and LOGn hand back no gas either -/
+theorem exec_noncall_gas {sub : Sub} {env : Env} {s : State} {k : OpKind} {args : List Word} {mem : Bytes} {cgt : Nat}
+    {results : List Word} {pc : Nat} {mem' : Bytes} {w : World} {gb : Nat}
+    (hc : k.isCall = false)
+    (h : exec sub env s k args mem cgt = .cont results pc mem' w gb) : gb = 0 := by
+  cases hm : k.modifies
+  · exact (exec_frame hm hc h).2
+  · cases k <;> simp only [OpKind.modifies] at hm <;> simp only [exec] at h
+    all_goals first
+      | (injection h with h1 h2 h3 h4 h5; exact h5.symm)
+      | cases hm
+
+theorem exec_stops {sub : Sub} {env : Env} {s : State} {k : OpKind} {args : List Word} {mem : Bytes} {cgt : Nat}
+    {results : List Word} {pc : Nat} {mem' : Bytes} {w : World} {gb : Nat}
+    (hk : k.stops = true) : exec sub env s k args mem cgt ≠ .cont results pc mem' w gb := by
   cases k <;> simp [exec, OpKind.stops] at *
 
-theorem exec_stop_status {env : Env} {s : State} {k : OpKind} {args : List Word} {mem : Bytes}
-    {st : Status} {ret : Bytes} (h : exec env s k args mem = .stop st ret) : st ≠ .err .fuel := by
-  cases k <;> simp only [exec] at h
-  case jump => split at h <;> (try (injection h with h1; subst h1; simp)); cases h
+/-- where the program counter goes: to the next instruction, or to a valid jump destination -/
+theorem exec_pc {sub : Sub} {env : Env} {s : State} {k : OpKind} {args : List Word} {mem : Bytes} {cgt : Nat}
+    {results : List Word} {pc : Nat} {mem' : Bytes} {w : World} {gb : Nat}
+    (h : exec sub env s k args mem cgt = .cont results pc mem' w gb) :
+    pc = s.pc + 1 + k.immLen ∨ (k.isJump = true ∧ validJumpdest env.code pc = true) := by
+  cases k <;> simp only [exec] at h <;> simp only [OpKind.immLen]
+  case jump =>
+    split at h
+    · rename_i hv; injection h with h1 h2; subst h2; exact Or.inr ⟨rfl, hv⟩
+    · cases h
   case jumpi =>
     split at h
-    · split at h <;> (try (injection h with h1; subst h1; simp)); cases h
-    · cases h
+    · split at h
+      · rename_i hv; injection h with h1 h2; subst h2; exact Or.inr ⟨rfl, hv⟩
+      · cases h
+    · injection h with h1 h2; subst h2; exact Or.inl rfl
+  case call => exact Or.inl (afterCall_cont h).2.1
+  case staticcall => exact Or.inl (afterCall_cont h).2.1
+  case push n => injection h with h1 h2; subst h2; exact Or.inl (by omega)
   all_goals first
-    | (injection h with h1; subst h1; simp)
+    | (injection h with h1 h2; subst h2; exact Or.inl rfl)
     | cases h
 
-theorem step_halt_status {env : Env} {s : State} {h : Halt} (hs : step env s = .halt h) :
-    h.status ≠ .err .fuel := by
-  unfold step at hs
-  simp only [haltWith] at hs
-  split at hs
-  · simp at hs; subst hs; simp
-  · split at hs; · simp at hs; subst hs; simp
-    split at hs; · simp at hs; subst hs; simp
-    split at hs; · simp at hs; subst hs; simp
-    split at hs; · simp at hs; subst hs; simp
-    split at hs; · simp at hs; subst hs; simp
-    split at hs; · simp at hs; subst hs; simp
-    split at hs; · simp at hs; subst hs; simp
-    split at hs; · simp at hs; subst hs; simp
-    split at hs; · simp at hs; subst hs; simp
-    split at hs
-    · rename_i hex; simp at hs; subst hs; exact exec_stop_status hex
-    · simp at hs
-
 /-- SSTORE / LOGn / EXP have constant gas 0 but a dynamic gas of at least 1 -/
-theorem dynGas_paid {k : OpKind} {args : List Word} {s : State} {m c l : Nat}
-    (hk : k.dynPaid = true) (h : dynGas k args s m = some (c, l)) : 1 ≤ c := by
+theorem dynGas_paid {k : OpKind} {args : List Word} {s : State} {self ga m c l : Nat}
+    (hk : k.dynPaid = true) (h : dynGas k args s self ga m = some (c, l)) : 1 ≤ c := by
   cases k <;> simp only [OpKind.dynPaid] at hk <;> simp only [dynGas] at h
   case exp =>
     simp only [safeAdd] at h
